@@ -387,3 +387,14 @@ theorem mro_mem_cases (bases : α → List α) : ∀ (d : Nat) (q : α) (l : Lis
         · exact ⟨y, List.mem_cons_of_mem _ (h4.subset hy), hxy⟩
 
 end MxModel.C3
+
+namespace MxModel.C3
+variable {α : Type} [DecidableEq α]
+
+/-- same direct bases on the linearisation, a depth bound that is not smaller -/
+theorem mro_transfer_le (bases bases' : α → List α) (d d' : Nat) (q : α) (l : List α)
+    (h : mro bases d q = some l) (hb : ∀ x ∈ l, bases' x = bases x) (hd : d ≤ d') :
+    mro bases' d' q = some l :=
+  mro_le bases' _ _ hd q l (mro_congr bases bases' d q l h hb)
+
+end MxModel.C3
